@@ -46,7 +46,7 @@ m = {
                  "kind_free_text": "hand-written bounded exhaustive explorer run on the real igris code in forked workers: choice-tree (odometer/DFS) enumeration of inputs and environment answers, explicit-state BFS over operation histories with canonical impl+reference keys, and (C20) a preemption-bounded thread scheduler over interposed pthread/sem operations"}],
     "checks": checks,
     "not_applicable": na,
-    "notes": "All checks rebuild from /repo's working tree into /verif/build/<id>/ (wiped per run). exit 2 + HARNESS-ERROR means the harness could not decide (build failure, nondeterminism, vacuous run) and is never a verdict. Known findings: findings/known_findings.txt.",
+    "notes": "All checks rebuild from /repo's working tree (IGRIS_REPO overrides the path) into a per-invocation scratch directory /verif/build/<id>.<pid>/ that is removed at exit. exit 0 = the property held on everything explored (KNOWN-FINDING lines for listed findings); exit 1 + VIOLATION line = an unlisted violation that replayed twice in fresh processes; exit 2 + HARNESS-ERROR = the harness could not decide (build failure, nondeterminism, vacuous run) and is never a verdict. Known findings and repaired defects: findings/cNN.txt (format: findings/00_format.txt), read-only at run time. Each property's check runs several builds of the repository sources (sanitizers, -DNDEBUG, -funsigned-char, second compiler, -Os; see harness/cNN/build.sh) with the project's own language standard (-std=c++20). deadline_s in harness/cNN/config.json is a safety cap, several times the idle run time.",
 }
 json.dump(m, open(os.path.join(V, "MANIFEST.json"), "w"), indent=1)
 print(f"{len(checks)} checks, {len(na)} not_applicable")
